@@ -23,7 +23,7 @@ RULE = ("allocsafe7: destination precision 1..6 limbs, operand lengths 0, 1, pre
         "mpf_add: exponent difference 0, 1, usize-1, usize, usize+1, prec-1, prec, prec+1, large, either operand the larger exponent, a zero operand, "
         "alias modes r==u, r==v, u==v, r==u==v; mul_ui: v = 0, 1, 2^64-1, 2^63, carries propagating out of the dropped limbs")
 
-PINS = [("mpf/set.c", None), ("mpf/set_ui.c", None), ("mpf/set_si.c", None), ("mpf/set_z.c", None), ("mpf/mul_ui.c", None), ("mpf/add.c", None)]
+PINS = [("mpf/mul_2exp.c", None), ("mpf/div_2exp.c", None), ("mpf/set.c", None), ("mpf/set_ui.c", None), ("mpf/set_si.c", None), ("mpf/set_z.c", None), ("mpf/mul_ui.c", None), ("mpf/add.c", None)]
 
 def limbs(rng, n):
     """n limbs, top non-zero, special shapes on purpose"""
@@ -75,6 +75,14 @@ def gen_mul_ui(rng):
     v = rng.choice([0, 1, 1, 2, M, M, 1 << 63, (1 << 63) + 1, rng.getrandbits(64), rng.getrandbits(32)])
     return "as7_mul_ui %x %x %s %x" % (rng.randrange(2), p, opnd(rng, n)[0], v)
 
+def gen_2exp(rng):
+    """mpf_mul_2exp / mpf_div_2exp: whole-limb counts (copy arm, one more limb kept), bit counts 1, 63 (carry limb zero / non-zero), operand longer
+    than prec (mpn_rshift path) and not (mpn_lshift path), r == u"""
+    p = prec_(rng)
+    n = length(rng, p)
+    k = rng.choice([0, 1, 1, 63, 63, 64, 65, 127, 128, rng.randrange(0, 300), 64 * rng.randrange(0, 5)])
+    return "as7_%s_2exp %x %x %s %x" % (rng.choice(["mul", "div"]), rng.randrange(2), p, opnd(rng, n)[0], k)
+
 def gen_add(rng):
     p = prec_(rng)
     m = rng.choice([0, 0, 0, 1, 1, 2, 2, 3, 4])
@@ -98,6 +106,7 @@ def gen_ops(rng, tier, ctx=None):
         yield gen_mul_ui(rng)
         yield gen_add(rng)
         yield gen_add(rng)
+        yield gen_2exp(rng)
         if _ % 2 == 0: yield gen_set_z(rng)
         if _ % 4 == 1: yield gen_set_ui(rng)
         if _ % 4 == 3: yield gen_set_si(rng)
